@@ -211,6 +211,8 @@ def replay(ctx, rep):
         c2 = type(ctx)(ctx.prop_id, 'quick', 0)
         wire_level(c2, c2.rng, rep['case']['grant'], rep['case']['nframes'])
         return bool(c2.violations), (c2.violations[0]['observed'] if c2.violations else 'bytes arrive intact')
+    if ':work:' in rep.get('key', ''):
+        return tg.replay_work(rep['case'])
     s, wrote = tg.replay_script(rep['case'])
     try:
         t = s.t
